@@ -20,7 +20,8 @@ var c04Menus = map[string][][]string{
 	"denyallow": {{"zq.com"}, {"zq.com", "z.org"}, {"q.co.uk", "z.zq.com", "com"}},
 	"dnstype":   {{"A"}, {"A", "AAAA"}, {"~A"}, {"~A", "AAAA"}, {"cname", "~MX", "TXT"}},
 	"ctag":      {{"a"}, {"b", "a"}, {"~a"}, {"c", "~a", "b"}, {"~d", "~b"}},
-	"client":    {{"a"}, {"'b'", "a"}, {"~a"}, {"1.2.3.4"}, {"1.2.3.0/24", "~1.2.3.4"}, {"2001:d00::/24"}, {"b", "1.2.0.0/16", "a", "~2001:dff::1"}, {"c", "b", "a", "ab"}, {"1.2.3.0/24", "2001:d00::/24"}, {"~1.2.0.0/16", "~2001:d00::/24"}, {"2001:d00::/24", "1.2.3.4", "a"}},
+	"client":    {{"a"}, {"'b'", "a"}, {"~a"}, {"1.2.3.4"}, {"1.2.3.0/24", "~1.2.3.4"}, {"2001:d00::/24"}, {"b", "1.2.0.0/16", "a", "~2001:dff::1"}, {"c", "b", "a", "ab"}, {"1.2.3.0/24", "2001:d00::/24"}, {"~1.2.0.0/16", "~2001:d00::/24"}, {"2001:d00::/24", "1.2.3.4", "a"}, {"1.3.0.0/16", "1.2.3.4"}, {"~1.3.0.0/16", "~1.2.3.0/24"}, {"2001:e00::/24", "2001:d00::1"}, {"9.0.0.0/8", "1.2.0.0/16", "1.2.3.4"},
+		{`'a\'b'`}, {`"c\""`, "a"}, {`~'ab\''`, "b"}, {`'a\,b'`}},
 }
 
 var c04Order = []string{"tp", "type", "domain", "denyallow", "dnstype", "ctag", "client"}
@@ -128,9 +129,8 @@ func c04CrossCheck(rs []c04Rule) (int, []string) {
 			n++
 			var wantVals []string
 			for _, v := range vals {
-				v = strings.Trim(v, "'")
-				if strings.HasPrefix(v, "~'") {
-					v = "~" + strings.Trim(v[1:], "'")
+				if m == "client" {
+					v = c04Unquote(v)
 				}
 				switch m {
 				case "tp":
@@ -182,6 +182,31 @@ func init() {
 			nr.rules = append(nr.rules, extra.rules...)
 			rc.Natives["rules"] = nr
 			rc.Natives["c04"] = crs
+			// expected values per grammar rule, for the symbolic-side parse check (replayable)
+			kw := map[string][]string{}
+			for i, cr := range crs {
+				kw["c04text"] = append(kw["c04text"], cr.text)
+				var want []string
+				for _, m := range c04Order {
+					for _, v := range cr.want[m] {
+						switch m {
+						case "client":
+							v = c04Unquote(v)
+						case "tp":
+							if v == "first-party" {
+								v = "~third-party"
+							}
+						case "dnstype":
+							v = strings.ToUpper(v)
+						}
+						want = append(want, m+"="+v)
+					}
+				}
+				kw[fmt.Sprintf("c04want%d", i)] = want
+			}
+			rc.Natives["keywords"] = kw
+			kb, _ := json.Marshal(kw)
+			rc.ReplayFiles["VERIF_KEYWORDS"] = kb
 			b, _ := json.Marshal(nr.texts)
 			rc.ReplayFiles["VERIF_RULES"] = b
 			return nil
@@ -221,6 +246,9 @@ func init() {
 					}
 				}
 			}
+			for i := range crs {
+				jobs = append(jobs, Job{Pkg: "rules", Func: "verifC04Parse", Args: []int64{int64(i)}})
+			}
 			ng := curRun.Natives["ngrammar"].(int)
 			nall := len(curRun.Natives["rules"].(*nativeRules).texts)
 			hostLs := []int64{2, 5, 8}
@@ -241,8 +269,9 @@ func init() {
 		Setup: func(e *sym.Engine, st *sym.State, l *sym.Loaded) {
 			setupNetip(e, st, l)
 			e.Ctx["native:rule"] = nativeRuleProvider(curRun.Natives["rules"].(*nativeRules))
+			e.Ctx["keywords"] = curRun.Natives["keywords"]
 		},
-		MustReach: []string{"c04.match", "c04.nomatch", "c04.target.url", "c04.target.hostname"},
+		MustReach: []string{"c04.match", "c04.nomatch", "c04.target.url", "c04.target.hostname", "c04.parse"},
 		Bounds: map[string]string{
 			"quick":    "rules: every single modifier of the grammar with every value set of its menu in every value order (1..4 values, negations, wildcard TLD, IPv4/IPv6/CIDR/quoted clients) plus 40 seeded pairs and 30 seeded multi-modifier rules; request: third-party flag, hostname-request flag, one-hot content type, 16-bit DNS type, client name 0..1 bytes, client IP absent / IPv4 with two symbolic bytes / IPv6 with two symbolic bytes, 0..2 sorted one-byte tags all symbolic; source host 1,3,4,5,6 symbolic bytes over {z,q,.} plus tail {'', .com, .co.uk} or empty; request host 1,4 bytes plus tail or empty",
 			"thorough": "400 pairs and 300 multi-modifier rules; source hosts up to 8 and request hosts up to 6 symbolic bytes",
@@ -257,4 +286,19 @@ func init() {
 			return n + n2, append(mm, mm2...)
 		},
 	})
+}
+
+// c04Unquote: the documented reading of one $client value: an optional ~, then a name that may be
+// enclosed in single or double quotes, inside which \<quote> stands for the quote; \, stands for a comma.
+func c04Unquote(v string) string {
+	neg := ""
+	if strings.HasPrefix(v, "~") {
+		neg, v = "~", v[1:]
+	}
+	if len(v) >= 2 && (v[0] == '\'' || v[0] == '"') && v[len(v)-1] == v[0] {
+		q := string(v[0])
+		v = strings.ReplaceAll(v[1:len(v)-1], "\\"+q, q)
+	}
+	v = strings.ReplaceAll(v, "\\,", ",")
+	return neg + v
 }
